@@ -780,8 +780,15 @@ fn stmt(rng: &mut Rng, a: &mut Asm, cfg: &StructCfg, depth: u32, budget: &mut i3
             let t = k + rng.range(0, cfg.scratch - 1);
             if c != n && c != x && c != y && n != x && n != y {
                 a.add(n, rng.range(1, 3));
+                if rng.chance(1, 3) {
+                    a.output(x);
+                }
+                let fresh_scratch = rng.coin();
                 a.while_(c, |a| {
                     a.while_(n, |a| {
+                        if fresh_scratch {
+                            a.clear(t);
+                        }
                         // y += x, x preserved
                         a.while_(x, |a| {
                             a.add(y, 1);
@@ -814,10 +821,19 @@ fn stmt(rng: &mut Rng, a: &mut Asm, cfg: &StructCfg, depth: u32, budget: &mut i3
             if m != n && m != x && m != y && n != x && n != y {
                 // make x a computed value, not just a load
                 a.add(x, rng.range(1, 3));
+                if rng.coin() {
+                    // ... that has been loaded once already
+                    a.output(x);
+                }
+                // a scratch cell cleared right before the copy lets the optimiser prove x unchanged
+                let fresh_scratch = rng.coin();
                 a.add(m, rng.range(1, 2));
                 a.while_(m, |a| {
                     a.add(n, 2);
                     a.while_(n, |a| {
+                        if fresh_scratch {
+                            a.clear(t);
+                        }
                         a.while_(x, |a| {
                             a.add(y, 1);
                             a.add(t, 1);
@@ -1732,9 +1748,63 @@ fn long_runs(rng: &mut Rng) -> String {
     s
 }
 
+/// A program of 70-400 KiB: loops that are skipped (their cell is zero) at source positions
+/// that are congruent modulo 2^8 / 2^12 / 2^16 but differ in length, and a loop whose body is
+/// larger than 64 KiB that is entered on the first round of an outer loop and skipped on the
+/// second. Every loop body prints, so a wrong jump shows; markers are printed in between.
+fn big_sparse(rng: &mut Rng) -> String {
+    let filler = |n: usize, rng: &mut Rng| -> String {
+        // neutral code: pairs that cancel
+        let unit = *rng.pick(&["+-", "-+", "><", "<>"]);
+        let mut f = unit.repeat(n / 2);
+        if n % 2 == 1 {
+            f.push(' ');
+        }
+        f
+    };
+    let mut s = String::new();
+    // cell 0: marker; cell 1: always zero (skipped loops); cell 2: rounds; cell 3: big-body flag
+    s.push_str(">>>+<<<>>++[<<");
+    let with_big_body = rng.chance(2, 3);
+    if with_big_body {
+        let body = *rng.pick(&[65_530usize, 65_536, 65_540, 70_000, 131_080]);
+        s.push_str(">>>[<<<+.");
+        s.push_str(&filler(body, rng));
+        s.push_str(">>>[-]]<<<");
+    }
+    let n = rng.urange(2, 5);
+    for i in 0..n {
+        // a skipped loop of its own length
+        let junk_len = rng.urange(0, 40) * (i + 1);
+        s.push_str(">[");
+        s.push_str(".+");
+        s.push_str(&filler(junk_len, rng));
+        s.push_str("]<+.");
+        // distance to the next one: exactly a power of two now and then
+        let here = s.len();
+        let dist = match rng.below(4) {
+            0 => 256usize,
+            1 => 4096,
+            2 => 65_536,
+            _ => rng.urange(10, 70_000),
+        };
+        // the next `[` follows one `>` after the filler; the previous `[` was at here - (junk + 8)
+        let prev_open = here - (junk_len + 7);
+        let target = prev_open + dist * rng.urange(1, 2);
+        if target > here + 1 {
+            s.push_str(&filler(target - here - 1, rng));
+        }
+    }
+    s.push_str(">>-]<<.");
+    s
+}
+
 pub fn long_straight(rng: &mut Rng) -> String {
     if rng.chance(1, 4) {
         return long_runs(rng);
+    }
+    if rng.chance(1, 5) {
+        return big_sparse(rng);
     }
     let big = rng.chance(1, 4);
     let n = rng.urange(4_000, if big { 60_000 } else { 15_000 });
